@@ -59,6 +59,17 @@ def gen(rng, tier):
                 dup_block()
         h['timeout'] = 300
         h['shape'] = 'real-far'
+    elif mode < real_boundary_p + 0.08:
+        # real parameters: cross the switch, then grow well beyond 2% with probes in between (stale or frozen estimates show here)
+        ops.append(['add_new', W, 'asc'])
+        ops.append(['probe'])
+        for _ in range(rng.randrange(1, 4)):
+            ops.append(['add_new', rng.choice([20000, 40000, 70000]), 'asc'])
+            if rng.random() < 0.3:
+                ops.append(['tick', rng.choice([0.5, 6.0, 3600.0])])
+            ops.append(['probe'])
+        h['timeout'] = 90
+        h['shape'] = 'real-grow'
     elif mode < 0.45:
         # real parameters, well inside the exact range
         for _ in range(rng.randrange(1, 8)):
@@ -82,6 +93,8 @@ def gen(rng, tier):
                 ops.append(['add_new', rng.choice([1, 1, 2, 3, w // 4, w]), order()])
             if rng.random() < 0.7:
                 ops.append(['probe'])
+            if rng.random() < 0.1:
+                ops.append(['tick', rng.choice([0.5, 6.0, 3600.0])])
         h['shape'] = 'scaled'
     return h
 
@@ -119,14 +132,14 @@ def candidates(h):
 
 
 def size(h):
-    return (len(h['ops']), sum(op[1] for op in h['ops'] if op[0] != 'probe'), 0 if h.get('kind') == 'hex' else 1)
+    return (len(h['ops']), sum(op[1] for op in h['ops'] if op[0] in ('add_new', 're_add')), 0 if h.get('kind') == 'hex' else 1)
 
 
 def signature(h, v):
     d = v.get('distinct', 0)
     lim = (1 << (h['scaled_p'] - 1)) if h.get('scaled_p') else W
     rel = 'below' if d < lim - 1 else 'at-1' if d == lim - 1 else 'at' if d == lim else 'at+1' if d == lim + 1 else 'beyond'
-    return (h.get('shape'), h.get('scaled_p'), h['kind'], rel, v.get('dup_after_switch', 0) > 0)
+    return (h.get('shape'), h.get('scaled_p'), h['kind'], rel, v.get('dup_after_switch', 0) > 0, bool(h.get('decoy')))
 
 
 def nontrivial(h, v):
